@@ -120,9 +120,8 @@ fn fill_dot8(l: FDot8, t: FDot8, r: FDot8, b: FDot8, fill_inner: bool, blitter: 
                     } else {
                         debug_assert!(false);
                     }
-                } else {
-                    debug_assert!(false);
                 }
+                // A zero `width` is fine: the rect covers two partial columns and nothing between them.
             }
 
             if r & 0xFF != 0 {
